@@ -21,6 +21,15 @@ pub struct SizeTriggerConfig {
     limit: u64,
 }
 
+#[cfg(all(log4rs_verif, feature = "config_parsing"))]
+#[doc(hidden)]
+impl SizeTriggerConfig {
+    /// The parsed limit.
+    pub fn verif_limit(&self) -> u64 {
+        self.limit
+    }
+}
+
 #[cfg(feature = "config_parsing")]
 fn deserialize_limit<'de, D>(d: D) -> Result<u64, D::Error>
 where
